@@ -76,6 +76,8 @@ def gen_case(rng, tier):
         case['dest_initial'] = None          # the pre-state is whatever the first save left
         case['prior'] = {'case': first, 'crash_at': rng.randint(0, 30)}
         case['overwrite_part'] = rng.random() < 0.7
+        case.pop('reuse', None)
+        first.pop('reuse', None)
     return case
 
 
@@ -103,6 +105,19 @@ def fixed_cases(tier):
                                           'buffering': -1, 'blksize': blk, 'umask': 0o022, 'dest_rel': False,
                                           'dest_initial': {'data': b'OLD CONTENT'.hex(), 'mode': 0o644} if present else None,
                                           'body': body, 'power_seed': 1})
+        import errno as _e
+        for text in (False, True):
+            for blk in (8, 8192):
+                for body in ([['write', 'abc' if text else b'abc'.hex()]],
+                             [['write', ('0123456789' * 3) if text else (b'0123456789' * 3).hex()]]):
+                    # a file system without hard links, no-clobber publication
+                    cases.append({'text_mode': text, 'overwrite': False, 'part_file': None, 'buffering': -1,
+                                  'blksize': blk, 'umask': 0o022, 'dest_rel': False, 'dest_initial': None,
+                                  'body': body, 'power_seed': 3, 'env': {'link': _e.EPERM}})
+                    # the saver object is used for the second time
+                    cases.append({'text_mode': text, 'overwrite': True, 'part_file': None, 'buffering': -1,
+                                  'blksize': blk, 'umask': 0o022, 'dest_rel': False, 'dest_initial': None,
+                                  'body': body, 'power_seed': 3, 'reuse': 1})
         # recovery floor: the first save (overwrite False/True, destination absent/present) dies at
         # each of its crash points; the second save runs with overwrite_part on
         for ow1 in (False, True):
@@ -167,10 +182,23 @@ def run_case(case):
     else:
         old = bytes.fromhex(case['dest_initial']['data']) if case.get('dest_initial') else None
         stale_part = False
+    if prior and case.get('reuse'):
+        case = dict(case)
+        case.pop('reuse')
+    if case.get('reuse') and not prior:
+        w = S.run_save(case, simfs.Plan(), None, only_warmup=True)
+        if w.exc is not None:
+            out.digest = log.digest()
+            return out
+        old = w.pre_state['dest']           # what the earlier saves of the same object left
+        out.probe('saver_instance_reused')
     new = S.new_content(case)
+    env_fail = bool(case.get('env')) and not case.get('overwrite', True)
     refused = (old is not None and not case.get('overwrite', True)) or stale_part
 
     base = S.run_save(case, simfs.Plan(), log, fs=start_fs())
+    if env_fail and not refused and isinstance(base.exc, OSError):
+        refused = True        # e.g. no hard links: the no-clobber save may fail (or succeed some other atomic way)
     N = base.sim.n
     out.steps = N
     # ---- fault-free run: A4, A2, A3 ------------------------------------------------------
@@ -338,7 +366,7 @@ def shrink(case, fails):
     c = _prior_shrink(c, fails)
     c = shrinkers.shrink_list_field(c, 'body', fails)
     for simple in ({'part_file': None}, {'dest_rel': False}, {'umask': 0o022}, {'buffering': -1},
-                   {'blksize': 8192}, {'blksize': 8}, {'text_mode': False}):
+                   {'blksize': 8192}, {'blksize': 8}, {'reuse': 0}, {'env': None}, {'text_mode': False}):
         if simple == {'text_mode': False} and c.get('text_mode'):
             continue       # body encoding differs; keep
         c = shrinkers.try_set(c, simple, fails)
